@@ -158,6 +158,71 @@ theorem peerAddrEntry_iff (e k v : Bytes) :
     have h3' : bar ∈ trimSpace (cutBar e).2.1 := by simpa using h3
     simp [h1, h3', hp]
 
+/-! ### the consumer: static controller, `Config.Validate`, `LookupTptAddr` resolution -/
+
+/-- `NewController` succeeds exactly when no entry of the list is malformed, and `Config.Validate`
+accepts exactly the same lists. -/
+theorem staticController_iff (l : List Bytes) :
+    ((newStaticController l).isSome ↔ malformed l = 0) ∧
+    staticConfigValid l = (newStaticController l).isSome := by
+  have he : (parsePeerAddressMap l).2 = malformed l := (peerAddressMap_spec l []).2.2.2.2
+  unfold newStaticController staticConfigValid
+  simp only
+  rw [he]
+  by_cases h : malformed l = 0 <;> simp [h]
+
+/-- Resolving a `LookupTptAddr` directive for ANY peer ID `pid` through a controller built from the
+list `l` yields a strictly sorted (duplicate-free) slice holding exactly the addresses `l` gives
+for that peer — and no resolver at all (the empty slice) exactly when `l` gives none for it. -/
+theorem staticLookup_spec (l : List Bytes) (m : List (Bytes × List Bytes))
+    (h : newStaticController l = some m) (pid : Bytes) :
+    SortedLt (resolveLookup m pid) ∧
+    (∀ a, a ∈ resolveLookup m pid ↔ a ∈ given l (idB58Encode pid)) ∧
+    (resolveLookup m pid = [] ↔ given l (idB58Encode pid) = []) := by
+  have hm : m = (parsePeerAddressMap l).1 := by
+    unfold newStaticController at h
+    simp only at h
+    split at h
+    · cases h
+    · injection h with h; exact h.symm
+  have hs : SortedLt (valuesOf (parsePeerAddressMap l).1 (idB58Encode pid)) ∧
+      (∀ a, a ∈ valuesOf (parsePeerAddressMap l).1 (idB58Encode pid) ↔ a ∈ given l (idB58Encode pid)) :=
+    ⟨(peerAddressMap_spec l (idB58Encode pid)).1, (peerAddressMap_spec l (idB58Encode pid)).2.1⟩
+  have hv : resolveLookup m pid = valuesOf (parsePeerAddressMap l).1 (idB58Encode pid) := by
+    rw [hm]; rfl
+  rw [hv]
+  refine ⟨hs.1, hs.2, ?_⟩
+  constructor
+  · intro he
+    cases hg : given l (idB58Encode pid) with
+    | nil => rfl
+    | cons a r =>
+      have : a ∈ valuesOf (parsePeerAddressMap l).1 (idB58Encode pid) := (hs.2 a).mpr (by rw [hg]; simp)
+      rw [he] at this
+      cases this
+  · intro he
+    cases hg : valuesOf (parsePeerAddressMap l).1 (idB58Encode pid) with
+    | nil => rfl
+    | cons a r =>
+      have : a ∈ given l (idB58Encode pid) := (hs.2 a).mp (by rw [hg]; simp)
+      rw [he] at this
+      cases this
+
+/-- `ValidatePeerID` accepts exactly the strings `ParsePeerID` parses to a non-empty ID: it rejects
+whatever the parser rejects, and the empty string. -/
+theorem validatePeerId_iff (s : Bytes) :
+    validatePeerId s = true ↔ ∃ id, parsePeerId s = some id ∧ id ≠ [] := by
+  unfold validatePeerId
+  cases h : parsePeerId s with
+  | none => simp
+  | some id =>
+    cases id with
+    | nil => simp
+    | cons a r => simp
+
+theorem validatePeerId_reject (s : Bytes) (h : parsePeerId s = none) : validatePeerId s = false := by
+  unfold validatePeerId; rw [h]
+
 /-! ### peer IDs -/
 
 /-- The text of every accepted peer ID parses back to the same ID; the empty string is the
@@ -328,6 +393,9 @@ example : parseTimestamp id (fun _ => some (5, 7)) (marshalTimestamp (fun _ => [
 
 example : (parsePeerAddressMap [[49, 49, 124, 98, 124, 99], [49, 49, 124, 97, 124], [32, 49, 49, 124, 98, 124, 99, 32], [120]]) =
     ([([49, 49], [[97, 124], [98, 124, 99]])], 1) := by decide
+
+example : (newStaticController [[49, 49, 124, 98, 124, 99], [32, 49, 49, 124, 97, 124, 32], [49, 49, 124, 98, 124, 99]]).map (fun m => resolveLookup m [0, 0]) =
+    some [[97, 124], [98, 124, 99]] ∧ newStaticController [[120]] = none := by decide
 
 example : parseTptAddr [117, 100, 112, 124, 49, 124, 50] = some ([117, 100, 112], [49, 124, 50]) := by decide
 
